@@ -102,15 +102,58 @@ Example C15_nonvacuous :
 Proof. repeat split; try lia; reflexivity. Qed.
 Print Assumptions C15_nonvacuous.
 
-(* PARTIAL pipeline_equiv.  Full statement: for every loop of the recognised shape the final
-   contents of all buffers equal those of the sequential loop under every interleaving permitted
-   by the barriers.  Proved: for ALL stage counts, ALL trip counts n >= S-1 and EVERY interleaving
-   of the cores between consecutive barriers, the unrolled double-buffered code leaves the memory
-   of the sequential loop run with the parity-selected copies — under the footprint hypotheses
-   overtake_safe / stage_safe (the decidable class safe_pipe is what L2 uses; safe_pipe ->
-   overtake_safe and the renaming step selected copies -> single buffer are not proved, they are
-   covered by the L2 comparison with the interpreted original loop). *)
-From Snax Require Import Proofs.MultiCoreCommute Proofs.C15EquivProofs.
+(* pipeline_equiv.  Under the decidable class safe_pipe (every loop-invariant buffer is read-only,
+   private to one stage, or duplicated with an overwriting producer in stage s and readers in
+   stage s+1 only; tiles of one buffer share one non-zero stride and are disjoint from the
+   loop-invariant buffers; inside a stage ops of different cores do not conflict; ids small and
+   distinct), for ALL stage counts S >= 1, ALL trip counts n >= S-1 and EVERY interleaving of the
+   cores between consecutive barriers, the unrolled double-buffered code leaves in every buffer
+   that is not one of the duplicated pairs exactly the contents the original sequential loop
+   leaves (free-algebra values: equality for every concrete kernel).  The duplicated buffers
+   themselves are loop-local intermediates (their final content is that of the last or last but
+   one iteration, by parity). *)
+From Snax Require Import Proofs.MultiCoreCommute Proofs.C15EquivProofs Proofs.C15SafeProofs.
+
+Theorem C15_pipeline_equiv :
+  forall p ds n m ss x,
+  safe_pipe p ds = true ->
+  (forall b, In b ds -> In (Fixed b) (all_operands p)) ->
+  (1 <= nstages p)%nat -> (nstages p - 1 <= n)%nat ->
+  Forall2 schedule_of (pipe_events p ds (Z.of_nat n) 1) ss ->
+  ~ duprel ds x ->
+  exec (concat ss) m x = exec (concat (seq_events p 0 (Z.of_nat n) 1)) m x.
+Proof. exact pipeline_equiv. Qed.
+Print Assumptions C15_pipeline_equiv.
+
+(* its three ingredients: the class implies the footprint hypotheses for every trip count ... *)
+Theorem C15_safe_footprints :
+  forall p ds, safe_pipe p ds = true ->
+  vids_unique p /\ (forall n, overtake_safe p ds n) /\ (forall n, stage_safe p ds n).
+Proof.
+  intros p ds H. split; [exact (vids_unique_safe p ds H) | split; [exact (safe_overtake p ds H) | exact (safe_stage p ds H)]].
+Qed.
+Print Assumptions C15_safe_footprints.
+
+(* ... the loop on the parity-selected copies computes what the original loop computes ... *)
+Theorem C15_rename_equiv :
+  forall p ds, safe_pipe p ds = true -> (forall b, In b ds -> In (Fixed b) (all_operands p)) ->
+  forall n m x, ~ duprel ds x ->
+  exec (concat (seq_events p 0 (Z.of_nat n) 1)) m x = exec (concat (seq_events_sel p ds 0 (Z.of_nat n) 1)) m x.
+Proof. exact rename_equiv. Qed.
+Print Assumptions C15_rename_equiv.
+
+(* non-vacuity: the load / compute / store pipeline with its two duplicated buffers is in the class *)
+Example C15_safe_nonvacuous :
+  dups pipe3 = Some [10; 11] /\ safe_pipe pipe3 [10; 11] = true /\
+  (forall b, In b [10; 11] -> In (Fixed b) (all_operands pipe3)) /\ safe_pipe pipe3 [] = false.
+Proof.
+  split; [reflexivity|]. split; [reflexivity|]. split; [|reflexivity].
+  intros b [<-|[<-|[]]]; vm_compute; tauto.
+Qed.
+Print Assumptions C15_safe_nonvacuous.
+
+(* ... and the reordering under the footprint hypotheses (all S, n, every interleaving) *)
+
 
 Theorem C15_pipeline_equiv_partial :
   forall p ds n m ss,
